@@ -20,7 +20,7 @@ NA = {
 }
 
 PENDING = {k: 'applicable to this technique (see DESIGN.md section 3) but its check is not built yet in this revision; not claimed until it is quiet and sensitive'
-           for k in ('C04', 'C10', 'C12', 'C19')}
+           for k in ('C04', 'C10', 'C19')}
 
 CHECKS = {
  'C05': dict(
@@ -70,6 +70,17 @@ CHECKS = {
          'testMarkedPositionResets (that renumbering is what breaks the decoder on non-seekable streams: open known finding F6, classified narrowly). '
          'MemoryError on absurd lengths is not compared (machine-dependent).',
     technique='deterministic simulation: substrate-kind differential with a buffer-size knob; operation-history refinement of the seek-back wrapper against an executable model'),
+ 'C12': dict(
+    engine='task-world', category='exploration', design_ref='DESIGN.md section 3 (C12)',
+    text='2-5 codec tasks (encode, decode, streaming decode with its own arrival sub-plan, print, native codec) over SHARED schema/value objects '
+         'and the module-level codec singletons, under seeded schedules: back-to-back histories with repeats, step-by-step interleaving of '
+         'suspended decoder generators, real threads pre-empted at pyasn1 line events by a baton-passing scheduler (one runnable thread, the '
+         'plan decides every switch), each optionally with debug logging on. Oracles: every task outcome equals the same task alone on fresh '
+         'objects (in-process before the run; in a forked child for a seeded 2% of runs); semantic snapshots of the shared schema and inputs never '
+         'move; mutating one result moves neither the schema nor another result; module-level state digest and debug scope stack are restored.',
+    note='Trusts: pre-emption granularity is a Python line inside pyasn1 frames (races inside one bytecode are out of reach and, under the GIL, '
+         'not the library\'s concern); snapshot compares public observables modulo lazy instantiation of DEFAULT/OPTIONAL slots. Sampling of schedules, not enumeration.',
+    technique='deterministic simulation: seeded interleaving of suspended generators and baton-passed real threads (sys.settrace), differential against isolated execution plus state snapshots'),
 }
 
 
